@@ -244,7 +244,7 @@ class Gen:
         if not c:
             return None
         on, what, lst = c
-        form = self.r.choice(['move', 'move', 'sort', 'reorder', 'insert_member', 'move_multi', 'sort_partial'])
+        form = self.r.choice(['move', 'move', 'sort', 'reorder', 'insert_member', 'move_multi', 'sort_partial', 'move_repeat'])
         if form == 'move' and len(lst) >= 2:
             t, a = self.r.sample(lst, 2)
             return {'op': 'l_move', 'via': self.via(on, what), 'arg': self.arg([t]),
@@ -257,6 +257,12 @@ class Gen:
         if form == 'sort':
             key = self.r.choice(['id', 'id', 'name', ['name', 'id'], 'milestone'])
             return {'op': 'l_sort', 'via': self.via(on, what), 'key': key, 'reverse': self.r.random() < 0.4}
+        if form == 'move_repeat' and len(lst) >= 2:
+            # the same child named twice in one move request (legal: "repeated elements")
+            t, a = self.r.sample(lst, 2)
+            items = [t, t] if len(lst) < 3 or self.r.random() < 0.5 else [t, self.pick([x for x in lst if x not in (t, a)]), t]
+            return {'op': 'l_move', 'via': self.via(on, what), 'arg': {'k': self.r.choice(['list', 'tuple']), 'items': items},
+                    self.r.choice(['before', 'after']): a}
         if form == 'sort_partial':
             # key whose values are comparable for some children only (None next to numbers / strings): the call
             # raises in the middle of the comparison phase
